@@ -88,11 +88,11 @@ PROPS = {
     "C03": {
         "title": "Functions built from minterms, constants and variables evaluate as specified",
         "rules": [on_program(rules_eval.rule_level_sign), on_program(rules_eval.rule_twins), on_program(rules_eval.rule_eval_dispatch),
-                  on_program(rules_guard.rule_edge_for_value), on_program(rules_guard.rule_zero_of_stored)],
+                  on_program(rules_guard.rule_edge_for_value), on_program(rules_guard.rule_zero_of_stored), on_program(rules_eval.rule_fold_mirror)],
         "explanation": STRUCTURAL + ". C03: evaluation clauses only ('evaluation never depends on how the function is represented internally'): the evaluation walk follows the minterm's unprimed value at unprimed levels and its primed value at primed levels "
                        "(by-node walkers: from(X) on the X>0 edge, to(-X) on the other; by-level walker for identity-reduced relations: from, downLevel, to / from==to test for a skipped primed level, downLevel); "
                        "the multi-terminal and the edge-valued walkers (all four edge-valued instantiations) make the same sequence of tests and steps; evaluate() selects the walker by set / relation / identity-reduced relation and instantiates the "
-                       "edge-valued helper with the edge operation and scalar type of the forest; and the value→edge encoding rejects a value of the wrong range type and chooses the EV* zero edge on the stored value.",
+                       "edge-valued helper with the edge operation and scalar type of the forest; the value→edge encoding rejects a value of the wrong range type and chooses the EV* zero edge on the stored value; and one clause of the construction half: the min / max folds over the values of repeated minterms treat an infinite element and an infinite accumulator as mirror images (the built function cannot depend on the order of the collection).",
         "assumptions": ["the construction half of C03 (the recursive partition builder over minterm collections, don't-care / don't-change expansion, max/min combination, default values) is pointwise value semantics and is not decided",
                         "that the walk reads the right child is trusted to getDownPtr (decided structurally under C12's layout rule)"],
         "technique": "guard-edge dominance and step-sequence patterns over clang CFGs of the evaluator helpers; twin comparison of the MT and EV walkers; control-dependence contexts of the walker selections",
